@@ -193,7 +193,7 @@ fn test_sess(case: &SessCase, st: &mut Stats, counting: bool) -> CaseResult {
             Ok(())
         };
         let f = at(&root, "/d/f").map_err(|e| e.to_string())?;
-        let mut h = if case.append { f.append_file() } else { f.create_file() }.map_err(|e| format!("opening the session failed: {}", e))?;
+        let mut h = crate::util::hold(if case.append { f.append_file() } else { f.create_file() }.map_err(|e| format!("opening the session failed: {}", e))?);
         let _ = h.write_all(b"session bytes");
         trace.push(format!("{} handle on '/d/f' (layer {}) opened, 13 bytes written", if case.append { "append" } else { "create" }, li));
         judge("opening the session", false, &trace)?;
